@@ -6,7 +6,7 @@ use crate::common::*;
 use std::fmt::Debug;
 use std::str::FromStr;
 use temporal_rs::options::{
-    ArithmeticOverflow, DifferenceSettings, Disambiguation, DisplayCalendar, DisplayOffset, DisplayTimeZone,
+    RoundingMode, ArithmeticOverflow, DifferenceSettings, Disambiguation, DisplayCalendar, DisplayOffset, DisplayTimeZone,
     OffsetDisambiguation, RelativeTo, RoundingIncrement, RoundingOptions, ToStringRoundingOptions, Unit,
 };
 use temporal_rs::provider::TransitionDirection;
@@ -61,6 +61,13 @@ pub fn generate(rng: &mut Rng, thorough: bool) -> Vec<String> {
         v.push(format!("w19_capi_date {y} {m} {d} {}", rng.pick(&super::c03::CALENDARS)));
         v.push(format!("w19_capi_time {} {} {} {} {} {}", rng.range(0, 23), rng.range(0, 59), rng.range(0, 59), rng.range(0, 999), rng.range(0, 999), rng.range(0, 999)));
         v.push(format!("w19_capi_dur {du}"));
+        // FFI option records: every shape of the precision record, units and modes by name, increments
+        let unit = |rng: &mut Rng| if rng.chance(1, 4) { "-".to_string() } else { rng.pick(&UNITS).to_string() };
+        let mode = |rng: &mut Rng| if rng.chance(1, 4) { "-".to_string() } else { rng.pick(&MODES).to_string() };
+        let digit = if rng.chance(1, 3) { "-".to_string() } else { rng.range(0, 10).to_string() };
+        v.push(format!("w19_capi_tostr {} {} {} {} {} {} {} {digit} {} {}", rng.range(0, 23), rng.range(0, 59), rng.range(0, 59), rng.range(0, 999), rng.range(0, 999), rng.range(0, 999), rng.below(2), unit(rng), mode(rng)));
+        let inc = if rng.chance(1, 3) { "-".to_string() } else { rng.pick(&[0i128, 1, 2, 5, 7, 15, 24, 30, 60, 100, 1000, 1_000_000_000, 1_000_000_001, 4_294_967_295]).to_string() };
+        v.push(format!("w19_capi_settings {} {} {} {inc} {} {} {} {} {} {}", unit(rng), unit(rng), mode(rng), rng.range(0, 23), rng.range(0, 59), rng.range(0, 59), rng.range(0, 23), rng.range(0, 59), rng.range(0, 59)));
     }
     v
 }
@@ -70,6 +77,23 @@ fn cmp<T: Debug, U: Debug>(a: Result<T, TemporalError>, b: Result<U, TemporalErr
     let fb = match &b { Ok(v) => format!("{v:?}"), Err(e) => format!("err {}", err_kind(e)) };
     if fa == fb { "ok same".to_string() } else { format!("ok differ {fa} | {fb}") }
 }
+fn unit_to_ffi(u: Unit) -> temporal_capi::options::ffi::Unit {
+    use temporal_capi::options::ffi::Unit as F;
+    match u {
+        Unit::Auto => F::Auto, Unit::Nanosecond => F::Nanosecond, Unit::Microsecond => F::Microsecond, Unit::Millisecond => F::Millisecond,
+        Unit::Second => F::Second, Unit::Minute => F::Minute, Unit::Hour => F::Hour, Unit::Day => F::Day, Unit::Week => F::Week,
+        Unit::Month => F::Month, Unit::Year => F::Year,
+    }
+}
+fn mode_to_ffi(m: RoundingMode) -> temporal_capi::options::ffi::RoundingMode {
+    use temporal_capi::options::ffi::RoundingMode as F;
+    match m {
+        RoundingMode::Ceil => F::Ceil, RoundingMode::Floor => F::Floor, RoundingMode::Expand => F::Expand, RoundingMode::Trunc => F::Trunc,
+        RoundingMode::HalfCeil => F::HalfCeil, RoundingMode::HalfFloor => F::HalfFloor, RoundingMode::HalfExpand => F::HalfExpand,
+        RoundingMode::HalfTrunc => F::HalfTrunc, RoundingMode::HalfEven => F::HalfEven,
+    }
+}
+
 fn cmps(a: String, b: String) -> String {
     if a == b { "ok same".to_string() } else { format!("ok differ {a} | {b}") }
 }
@@ -228,6 +252,55 @@ pub fn eval(t: &[&str]) -> Option<String> {
             let a = match &ffi { Ok(x) => format!("{} {} {} {} {} {}", x.hour(), x.minute(), x.second(), x.millisecond(), x.microsecond(), x.nanosecond()), Err(_) => "err".into() };
             let b = match &core { Ok(x) => format!("{} {} {} {} {} {}", x.hour(), x.minute(), x.second(), x.millisecond(), x.microsecond(), x.nanosecond()), Err(_) => "err".into() };
             cmps(a, b)
+        }
+        "w19_capi_tostr" => {
+            use temporal_capi::options::ffi as o;
+            let time = PlainTime::try_new(i(t[1]) as u8, i(t[2]) as u8, i(t[3]) as u8, i(t[4]) as u16, i(t[5]) as u16, i(t[6]) as u16).ok()?;
+            let is_minute = t[7] == "1";
+            let digit: Option<u8> = if t[8] == "-" { None } else { Some(i(t[8]) as u8) };
+            let funit = |s: &str| -> Option<o::Unit> { opt_unit(s).map(|u| unit_to_ffi(u)) };
+            let fmode = |s: &str| -> Option<o::RoundingMode> { opt_mode(s).map(|m| mode_to_ffi(m)) };
+            let ffi_opts = o::ToStringRoundingOptions { precision: o::Precision { is_minute, precision: digit.into() }, smallest_unit: funit(t[9]).into(), rounding_mode: fmode(t[10]).into() };
+            // what the record means: `is_minute` wins over a digit count; no digits = automatic
+            let want = temporal_rs::parsers::Precision::from(o::Precision { is_minute: false, precision: None.into() });
+            let _ = want;
+            let precision = if is_minute { temporal_rs::parsers::Precision::Minute } else if let Some(d) = digit { temporal_rs::parsers::Precision::Digit(d) } else { temporal_rs::parsers::Precision::Auto };
+            let core_opts = ToStringRoundingOptions { precision, smallest_unit: opt_unit(t[9]), rounding_mode: opt_mode(t[10]) };
+            cmp(time.to_ixdtf_string(ffi_opts.into()), time.to_ixdtf_string(core_opts))
+        }
+        "w19_capi_settings" => {
+            use temporal_capi::options::ffi as o;
+            let funit = |s: &str| -> Option<o::Unit> { opt_unit(s).map(|u| unit_to_ffi(u)) };
+            let fmode = |s: &str| -> Option<o::RoundingMode> { opt_mode(s).map(|m| mode_to_ffi(m)) };
+            let inc: Option<u32> = if t[4] == "-" { None } else { Some(i(t[4]) as u32) };
+            let a = PlainTime::try_new(i(t[5]) as u8, i(t[6]) as u8, i(t[7]) as u8, 0, 0, 0).ok()?;
+            let b = PlainTime::try_new(i(t[8]) as u8, i(t[9]) as u8, i(t[10]) as u8, 0, 0, 0).ok()?;
+            let ffi_set = o::DifferenceSettings { largest_unit: funit(t[1]).into(), smallest_unit: funit(t[2]).into(), rounding_mode: fmode(t[3]).into(), increment: inc.into() };
+            let ffi_round = o::RoundingOptions { largest_unit: funit(t[1]).into(), smallest_unit: funit(t[2]).into(), rounding_mode: fmode(t[3]).into(), increment: inc.into() };
+            let mk_set = || -> Result<DifferenceSettings, TemporalError> {
+                let mut s = DifferenceSettings::default();
+                s.largest_unit = opt_unit(t[1]); s.smallest_unit = opt_unit(t[2]); s.rounding_mode = opt_mode(t[3]);
+                if let Some(n) = inc { s.increment = Some(RoundingIncrement::try_new(n)?); }
+                Ok(s)
+            };
+            let mk_round = || -> Result<RoundingOptions, TemporalError> {
+                let mut s = RoundingOptions::default();
+                s.largest_unit = opt_unit(t[1]); s.smallest_unit = opt_unit(t[2]); s.rounding_mode = opt_mode(t[3]);
+                if let Some(n) = inc { s.increment = Some(RoundingIncrement::try_new(n)?); }
+                Ok(s)
+            };
+            let kind_of = |k: temporal_capi::error::ffi::ErrorKind| -> &'static str {
+                use temporal_capi::error::ffi::ErrorKind as K;
+                match k { K::Generic => "generic", K::Type => "type", K::Range => "range", K::Syntax => "syntax", K::Assert => "assert" }
+            };
+            let flat = |r: Result<temporal_rs::Duration, TemporalError>| match r { Ok(d) => format!("{d:?}"), Err(e) => format!("err {}", err_kind(&e)) };
+            let via_ffi_u = match DifferenceSettings::try_from(ffi_set) { Ok(s) => flat(a.until(&b, s)), Err(e) => format!("err {}", kind_of(e.kind)) };
+            let via_core_u = flat(mk_set().and_then(|s| a.until(&b, s)));
+            let d = duration_from(&["0", "0", "0", "0", t[5], t[6], t[7], "0", "0", "0"]).ok()?;
+            let via_ffi_r = match RoundingOptions::try_from(ffi_round) { Ok(o) => flat(d.round(o, None)), Err(e) => format!("err {}", kind_of(e.kind)) };
+            let via_core_r = flat(mk_round().and_then(|o| d.round(o, None)));
+            let x = cmps(via_ffi_u, via_core_u);
+            if x != "ok same" { x } else { cmps(via_ffi_r, via_core_r) }
         }
         "w19_capi_dur" => {
             use temporal_capi::duration::ffi as f;
